@@ -11,8 +11,9 @@
 //!   TOTBLOB <dev> <off> <len>                blob with a descriptor that does not come from the XML
 //!
 //! Output: sections separated by ` # `.  Every measured call ends with ` m=<peak additional bytes>
-//! o=<device operations> t=<microseconds>` (iterations: m over the whole iteration including the iterator,
-//! o total, t = slowest single step, T = total); these, and nothing else, vary between runs and profiles.
+//! o=<device operations> t=<wall microseconds> c=<CPU microseconds of this thread>` (iterations: m over the whole iteration
+//! including the iterator, o total, t / c = slowest single step, T / C = total); these, and nothing else, vary between runs
+//! and profiles.  Bounds are judged on CPU time: wall time grows with the load of the machine.
 //! A panic is reported as class `P` and, at the end of the line, ` # PANICS <entry>@<file>:<line>:<message>`.
 use crate::bits::{parse_type, show_value};
 use crate::file::show_type;
@@ -135,22 +136,43 @@ unsafe impl GlobalAlloc for Counting {
 #[global_allocator]
 static ALLOC: Counting = Counting;
 
+// CPU time of this thread (the harness runs its cases sequentially on one thread): unlike wall time it does not grow
+// when the machine is loaded.  clock_gettime is in the C library std links anyway.
+#[repr(C)]
+struct Timespec {
+    tv_sec: i64,
+    tv_nsec: i64,
+}
+extern "C" {
+    fn clock_gettime(clk: i32, ts: *mut Timespec) -> i32;
+}
+const CLOCK_THREAD_CPUTIME_ID: i32 = 3;
+fn cpu_micros() -> u128 {
+    let mut ts = Timespec { tv_sec: 0, tv_nsec: 0 };
+    let rc = unsafe { clock_gettime(CLOCK_THREAD_CPUTIME_ID, &mut ts) };
+    if rc != 0 {
+        return 0;
+    }
+    ts.tv_sec as u128 * 1_000_000 + ts.tv_nsec as u128 / 1000
+}
+
 struct Meter {
     cur0: usize,
     ops0: u64,
     t0: Instant,
+    c0: u128,
 }
 impl Meter {
     fn start(dev: &Dev) -> Meter {
         let c = CUR.load(Relaxed);
         PEAK.store(c, Relaxed);
-        Meter { cur0: c, ops0: dev.ops(), t0: Instant::now() }
+        Meter { cur0: c, ops0: dev.ops(), t0: Instant::now(), c0: cpu_micros() }
     }
     fn peak(&self) -> usize {
         PEAK.load(Relaxed).saturating_sub(self.cur0)
     }
     fn done(&self, dev: &Dev) -> String {
-        format!("m={} o={} t={}", self.peak(), dev.ops() - self.ops0, self.t0.elapsed().as_micros())
+        format!("m={} o={} t={} c={}", self.peak(), dev.ops() - self.ops0, self.t0.elapsed().as_micros(), cpu_micros().saturating_sub(self.c0))
     }
 }
 
@@ -264,7 +286,7 @@ fn drain<I, T>(
     records: u64,
     cap: u64,
     mut fold: impl FnMut(u64, &T) -> u64,
-) -> (String, u128, u128)
+) -> (String, u128, u128, u128, u128)
 where
     I: Iterator<Item = e57::Result<T>>,
 {
@@ -273,17 +295,24 @@ where
     let mut n: u64 = 0;
     let mut fin = "none".to_string();
     let mut slow = 0u128;
+    let mut slow_cpu = 0u128;
     let t_all = Instant::now();
+    let c_all = cpu_micros();
     loop {
         if n >= limit {
             fin = "cap".to_string();
             break;
         }
         let t0 = Instant::now();
+        let c0 = cpu_micros();
         let r = pan.run(entry, || it.next());
         let dt = t0.elapsed().as_micros();
+        let dc = cpu_micros().saturating_sub(c0);
         if dt > slow {
             slow = dt;
+        }
+        if dc > slow_cpu {
+            slow_cpu = dc;
         }
         match r {
             None => {
@@ -307,7 +336,7 @@ where
         }
     }
     let over = if n > records { " over" } else { "" };
-    (format!("n={} end={} h={}{}", n, fin, fnv_hex(h), over), slow, t_all.elapsed().as_micros())
+    (format!("n={} end={} h={}{}", n, fin, fnv_hex(h), over), slow, t_all.elapsed().as_micros(), slow_cpu, cpu_micros().saturating_sub(c_all))
 }
 
 /// the hash of the raw iteration is the FNV of the text `v,v;v,v;...` the RAWRD case kind of the model prints
@@ -335,10 +364,10 @@ fn raw_section(pan: &mut Panics, r: &mut E57Reader<Dev>, dev: &Dev, pc: &e57::Po
         Some(Err(e)) => format!("raw:new:e{} {}", err_name(&e), m.done(dev)),
         Some(Ok(mut it)) => {
             let mut count = 0u64;
-            let (s, slow, total) = drain(pan, &format!("{}.next", entry), &mut it, pc.records, cap, fold_raw(&mut count));
+            let (s, slow, total, slow_cpu, total_cpu) = drain(pan, &format!("{}.next", entry), &mut it, pc.records, cap, fold_raw(&mut count));
             let peak = m.peak();
             drop(it);
-            format!("raw:{} m={} o={} t={} T={}", s, peak, dev.ops() - m.ops0, slow, total)
+            format!("raw:{} m={} o={} t={} T={} c={} C={}", s, peak, dev.ops() - m.ops0, slow, total, slow_cpu, total_cpu)
         }
     }
 }
@@ -356,10 +385,10 @@ fn simple_section(pan: &mut Panics, r: &mut E57Reader<Dev>, dev: &Dev, pc: &e57:
             it.normalize_intensity(mask & 8 != 0);
             it.normalize_color(mask & 16 != 0);
             it.apply_pose(mask & 32 != 0);
-            let (s, slow, total) = drain(pan, &format!("{}.next", entry), &mut it, pc.records, cap, |h, p: &Point| hash_point(h, p));
+            let (s, slow, total, slow_cpu, total_cpu) = drain(pan, &format!("{}.next", entry), &mut it, pc.records, cap, |h, p: &Point| hash_point(h, p));
             let peak = m.peak();
             drop(it);
-            format!("s{}:{} m={} o={} t={} T={}", mask, s, peak, dev.ops() - m.ops0, slow, total)
+            format!("s{}:{} m={} o={} t={} T={} c={} C={}", mask, s, peak, dev.ops() - m.ops0, slow, total, slow_cpu, total_cpu)
         }
     }
 }
